@@ -356,7 +356,7 @@ def verify_unit(unit, digit, mode, canary=False, use_cache=True):
                 continue
         break
     for rec_ in items:
-        if rec_['key'] in degrade:
+        if rec_['key'] in degrade or rec_.get('rewrites', {}).get('LOSTBODY'):
             rec_['degraded'] = True
             if rec_['status'] in ('failed', 'rlimit'):
                 rec_['status'] = 'undecided'
